@@ -1164,6 +1164,9 @@ type fcase struct {
 	MaxRows int64  `json:"max_rows_per_row_group,omitempty"`
 	Batch   int    `json:"write_batch"`
 	NoStats bool   `json:"no_page_statistics,omitempty"`
+	// Deprecated: parquet.DeprecatedDataPageStatistics(true): the writer also
+	// fills the deprecated min / max fields of the column chunk statistics.
+	Deprecated bool `json:"deprecated_statistics,omitempty"`
 	Copy    bool   `json:"copy_path,omitempty"`
 	Sort    string `json:"sorting,omitempty"` // "", "asc", "desc": declared on column 0
 	// SkipBounds: parquet.SkipPageBounds on column SkipCol (no bounds in the footer for it)
@@ -1322,6 +1325,9 @@ func (fc *fcase) options(s *parquet.Schema) []parquet.WriterOption {
 	}
 	if fc.SkipBounds {
 		opts = append(opts, parquet.SkipPageBounds(colName(fc.SkipCol)))
+	}
+	if fc.Deprecated {
+		opts = append(opts, parquet.DeprecatedDataPageStatistics(true))
 	}
 	switch fc.Sort {
 	case "asc":
@@ -1567,6 +1573,65 @@ func eqInts(a, b []int64) bool {
 //
 // cols: the columns with the rows the file must hold, in order (fc.Cols unless
 // the rows were reordered on the way); exp: the sorting metadata expected.
+// chunkPageToks: the pages of a chunk as the model's recordPageStats sees them
+// (num_values:num_nulls:min:max, N for a page without values).
+func chunkPageToks(k *kind, pages []pageData) (ps []string) {
+	for _, p := range pages {
+		nn := countNulls(p.vals)
+		var nonNull []parquet.Value
+		for _, v := range p.vals {
+			if !v.IsNull() {
+				nonNull = append(nonNull, v)
+			}
+		}
+		if len(nonNull) == 0 {
+			ps = append(ps, fmt.Sprintf("%x:%x:N", len(p.vals), nn))
+			continue
+		}
+		pmn, pmx, _, _ := pageBoundsOf(k, nonNull)
+		ps = append(ps, fmt.Sprintf("%x:%x:%s:%s", len(p.vals), nn, k.tok(pmn), k.tok(pmx)))
+	}
+	return
+}
+
+// deprecatedBounds reads the DEPRECATED min / max fields of a Statistics struct.
+//
+// Which order they are held to, per kind. The format defines the two fields by
+// "signed comparison only" and lets a writer set them "when the column order is
+// signed". The property speaks of the column's sort order, and parquet-go
+// documents (config.go DeprecatedDataPageStatistics) that it fills them with
+// min_value / max_value for every column. So:
+//   - BOOLEAN, the signed integers (INT32, INT64, INT(8..64,true), DATE, TIME*,
+//     TIMESTAMP*, DECIMAL on INT32/INT64), FLOAT, DOUBLE: the column order is the
+//     signed order of the format: the two readings coincide, the fields must
+//     bound the data.
+//   - unsigned integers, BYTE_ARRAY / FIXED_LEN_BYTE_ARRAY (strings, UUID, binary
+//     DECIMAL), INT96: the format's signed reading differs from the column order
+//     on some data (values on both sides of the sign bit, bytes >= 0x80) and the
+//     library documents that the fields are wrong for a legacy reader there; in
+//     the column order - the only documented reading, and the one a legacy
+//     reader shares on data of one sign / of bytes below 0x80 - they must bound
+//     the data like min_value / max_value do.
+// Hence one predicate for every kind: boundsPredicate in the column order.
+//
+// An empty BYTE_ARRAY bound is written as an absent field: for that type one
+// present field is enough and the absent one reads as the empty string.
+func deprecatedBounds(k *kind, st *format.Statistics) (mn, mx parquet.Value, has bool, why string) {
+	if st.Min == nil && st.Max == nil {
+		return
+	}
+	if k.Typ.Kind() != parquet.ByteArray && (st.Min == nil || st.Max == nil) {
+		return mn, mx, false, fmt.Sprintf("only one of the two is written: min %x max %x", st.Min, st.Max)
+	}
+	var o1, o2 bool
+	mn, o1 = storedValue(k, st.Min)
+	mx, o2 = storedValue(k, st.Max)
+	if !o1 || !o2 || (k.Num && (len(st.Min) != k.Width || len(st.Max) != k.Width)) || (k.fixedSize() > 0 && (len(st.Min) != k.fixedSize() || len(st.Max) != k.fixedSize())) {
+		return mn, mx, false, fmt.Sprintf("malformed: min %x max %x", st.Min, st.Max)
+	}
+	return mn, mx, true, ""
+}
+
 func checkFile(c *core.Ctx, fc *fcase, data []byte, label string, cols []fcol, exp sortExpect) bool {
 	viol := func(class, what string) {
 		c.Violation(class, label+": "+what, fc)
@@ -1703,6 +1768,16 @@ func checkFile(c *core.Ctx, fc *fcase, data []byte, label string, cols []fcol, e
 						viol("page-stats-wrong", fmt.Sprintf("%s page %d: %s", where, p, why))
 						ok = false
 					}
+					// the deprecated min / max of the header, when present, are held to
+					// the same predicate (see deprecatedBounds)
+					dmn, dmx, dhas, dwhy := deprecatedBounds(k, &h.stats)
+					if dwhy == "" {
+						dwhy = boundsPredicate(k, dmn, dmx, dhas, pages[p].vals, false)
+					}
+					if dwhy != "" {
+						viol("page-deprecated-stats-wrong", fmt.Sprintf("%s page %d: deprecated min/max: %s", where, p, dwhy))
+						ok = false
+					}
 					if has && c.HasOracle() {
 						var toks []string
 						for _, v := range pages[p].vals {
@@ -1715,9 +1790,18 @@ func checkFile(c *core.Ctx, fc *fcase, data []byte, label string, cols []fcol, e
 							cmd = "c05.dictbounds "
 						}
 						req := cmd + k.Model + " " + strings.Join(toks, ",")
-						if want, got := c.Ask(req), k.tok(mn)+":"+k.tok(mx); k.normZero(want) != k.normZero(got) {
+						want := c.Ask(req)
+						if got := k.tok(mn) + ":" + k.tok(mx); k.normZero(want) != k.normZero(got) {
 							c.Mismatch("corr:C05.page_stats", req, got, want, fc)
 							ok = false
+						}
+						// writer.go makePageStatistics gives the deprecated fields of a
+						// header the bytes of min_value / max_value
+						if dhas {
+							if got := k.tok(dmn) + ":" + k.tok(dmx); k.normZero(want) != k.normZero(got) {
+								c.Mismatch("corr:C05.page_deprecated_stats", req, got, want, fc)
+								ok = false
+							}
 						}
 					}
 				}
@@ -1744,9 +1828,46 @@ func checkFile(c *core.Ctx, fc *fcase, data []byte, label string, cols []fcol, e
 					ok = false
 				}
 				if c.HasOracle() && has && !skipBounds {
-					var ps []string
+					req := "c05.chunk " + k.Model + " " + strings.Join(chunkPageToks(k, pages), ",")
+					got := fmt.Sprintf("%x|%x|%s:%s", cm.NumValues, fcc.NullCount(), k.tok(mn), k.tok(mx))
+					if want := c.Ask(req); k.normZero(want) != k.normZero(got) {
+						c.Mismatch("corr:C05.chunk_stats", req, got, want, fc)
+						ok = false
+					}
+				}
+			}
+			// ---- deprecated min / max of the chunk statistics
+			{
+				dmn, dmx, dhas, dwhy := deprecatedBounds(k, &cm.Statistics)
+				// with the option set they are demanded like min_value / max_value
+				// (present, values of the chunk) wherever those are
+				exact := fc.Deprecated && k.Typ.Kind() != parquet.ByteArray && !skipBounds
+				if dwhy == "" {
+					dwhy = boundsPredicate(k, dmn, dmx, dhas, all, exact)
+				}
+				if dwhy != "" {
+					viol("chunk-deprecated-stats-wrong", fmt.Sprintf("%s: deprecated min/max: %s", where, dwhy))
+					ok = false
+				}
+				if c.HasOracle() && !skipBounds && (dhas || exact) {
+					dep := "0"
+					if fc.Deprecated {
+						dep = "1"
+					}
+					req := "c05.chunkdep " + k.Model + " " + dep + " " + strings.Join(chunkPageToks(k, pages), ",")
+					got := "N:N"
+					if dhas {
+						got = k.tok(dmn) + ":" + k.tok(dmx)
+					}
+					if want := c.Ask(req); k.normZero(want) != k.normZero(got) {
+						c.Mismatch("corr:C05.chunk_deprecated_stats", req, got, want, fc)
+						ok = false
+					}
+				}
+				if fc.Deprecated && !skipBounds {
+					moves := 0 // times a page after the first one with values moves a bound of the chunk
+					var lo, hi parquet.Value
 					for _, p := range pages {
-						nn := countNulls(p.vals)
 						var nonNull []parquet.Value
 						for _, v := range p.vals {
 							if !v.IsNull() {
@@ -1754,18 +1875,26 @@ func checkFile(c *core.Ctx, fc *fcase, data []byte, label string, cols []fcol, e
 							}
 						}
 						if len(nonNull) == 0 {
-							ps = append(ps, fmt.Sprintf("%x:%x:N", len(p.vals), nn))
 							continue
 						}
-						pmn, pmx, _, _ := pageBoundsOf(k, nonNull)
-						ps = append(ps, fmt.Sprintf("%x:%x:%s:%s", len(p.vals), nn, k.tok(pmn), k.tok(pmx)))
+						pmn, pmx, pok, nan := pageBoundsOf(k, nonNull)
+						if !pok || nan {
+							continue
+						}
+						if lo.IsNull() {
+							lo, hi = pmn, pmx
+							continue
+						}
+						if k.Typ.Compare(pmn, lo) < 0 {
+							lo = pmn
+							moves++
+						}
+						if k.Typ.Compare(pmx, hi) > 0 {
+							hi = pmx
+							moves++
+						}
 					}
-					req := "c05.chunk " + k.Model + " " + strings.Join(ps, ",")
-					got := fmt.Sprintf("%x|%x|%s:%s", cm.NumValues, fcc.NullCount(), k.tok(mn), k.tok(mx))
-					if want := c.Ask(req); k.normZero(want) != k.normZero(got) {
-						c.Mismatch("corr:C05.chunk_stats", req, got, want, fc)
-						ok = false
-					}
+					c.Case("file/"+label+"/deprecated-stats", fmt.Sprintf("%s|%s|%v|%d|%s|%s", label, col.Kind, col.Dict, len(pages), k.tok(dmn), k.tok(dmx)), moves >= 1)
 				}
 			}
 			// size statistics
@@ -2292,6 +2421,7 @@ func randFileCase(c *core.Ctx, i int) *fcase {
 		fc.Reuse = 1 + c.Rng.Intn(2)
 	}
 	fc.NoStats = c.Rng.Intn(12) == 0
+	fc.Deprecated = i%3 == 1
 	fc.SkipBounds = c.Rng.Intn(15) == 0
 	fc.Copy = c.Rng.Intn(3) == 0
 	switch c.Rng.Intn(8) {
@@ -2362,10 +2492,56 @@ func historySweep(c *core.Ctx) {
 	}
 }
 
+// deprecatedSweep: the writer option DeprecatedDataPageStatistics(true) for
+// every kind (plain and dictionary encoded, required and optional): column
+// chunks of many small pages whose values walk up, walk down or jump through
+// the domain of the kind, so that pages after the first one lower the minimum
+// and raise the maximum of the chunk again and again - for the byte array kinds
+// to values that are shorter, longer (beyond the capacity of what held the
+// earlier bound) or of the same length -, from new and from reset writers, in
+// one and in several row groups.
+func deprecatedSweep(c *core.Ctx) {
+	i := 0
+	for round := c.N(1, 3); round > 0; round-- {
+		for _, k := range kinds {
+			for _, dict := range []bool{false, true} {
+				if dict && !canDict(k) {
+					continue
+				}
+				for _, pattern := range []int{0, 1, 3} {
+					n := 30 + c.Rng.Intn(40)
+					fc := &fcase{PageBuf: []int{16, 24, 48}[i%3], Limit: []int{16, 0, 2}[(i/3)%3], V2: i%2 == 0, Batch: 1 + c.Rng.Intn(6), Deprecated: true}
+					if i%4 == 3 {
+						fc.Reuse = 1 + (i/4)%2
+					}
+					if i%5 == 4 {
+						fc.MaxRows = int64(n/2 + c.Rng.Intn(5))
+					}
+					fc.Copy = i%7 == 0
+					rep := []string{"req", "opt"}[(i/2)%2]
+					var rows [][]string
+					for _, j := range walk(c, pattern, n, len(k.Domain)) {
+						if rep == "opt" && c.Rng.Intn(6) == 0 {
+							rows = append(rows, []string{"N"})
+						} else if len(k.NaNs) > 0 && c.Rng.Intn(8) == 0 {
+							rows = append(rows, []string{k.tok(k.NaNs[c.Rng.Intn(len(k.NaNs))])})
+						} else {
+							rows = append(rows, []string{k.tok(k.Domain[j])})
+						}
+					}
+					fc.Cols = []fcol{{Kind: k.Name, Rep: rep, Dict: dict, Rows: rows}}
+					fileRun(c, fc)
+					i++
+				}
+			}
+		}
+	}
+}
+
 // ---------------------------------------------------------------- run
 
 func runC05(c *core.Ctx) {
-	c.Res.Rule = "(a) ColumnIndexer of every physical/logical type fed generated page lists (ordered, reversed, constant and random bounds from a per-type domain with extremes, -0, +-Inf, NaN payloads, long 0xFF prefixes; null pages at every position; size limits -1..21), on new indexers and on indexers that indexed 1-2 earlier lists and were Reset (random histories plus a sweep of every kind over histories shorter, equal and longer than the list; the column indexes handed out along the history are kept, as the writer keeps those of finished row groups until Close, and must still read as they did once the indexer has gone on), ascending and descending lists of every kind whose length is around the multiples of the strides of the vectorised order kernels (56, 112, 240 pages for every kind; 55..57, 111..113, 239..241 for the six kinds that have their own kernel, 447..449 / 479..481 for one kernel of each stride; all of these for every kind in the thorough tier; new and reset indexers), plus every list of <= 4 pages over a 3-value domain for int32 / byte arrays and every byte string over {00,01,fe,ff} up to length 5 with limits 1..4; Type.Compare on all domain pairs; Bounds of in-memory pages, plain and dictionary indexed: random pages, byte-position sweeps, position sweeps (every kind, pages of 65, 129 and 200 values — twelve lengths up to 257 in the thorough tier — holding the only smallest and the only largest value of the page at every position in turn: the first and last value of every batch of 64 the generic page code reads, every lane and tail position of the kernels), pages above 1 MiB, and every ordered pair of every domain (NaNs and both zeros included; for the kinds whose order has ties also the pair spread over a longer page), each followed by Search of every value of the page in the one-page index made of the page's own bounds. (b) files with generated schemas (1-4 columns, required / optional / repeated, plain / dictionary, data page v1 / v2, tiny page buffers, every ColumnIndexSizeLimit 1..20, with and without page statistics, sorting declared or not; row groups cut by MaxRowsPerRowGroup and by Flush; writers new or reused through Writer.Reset after a complete or an abandoned file; a sweep gives every kind, plain and dictionary, each of these histories), re-written through WriteRowGroup with identical settings. (b') the rows sorted in 1-4 parquet.Buffers that declare 0-3 sorting columns (every combination of descending / nulls first) and written through Writer.WriteRowGroup by a writer without (or, sometimes, with) a sorting configuration of its own, on every way in: the Buffers (column-wise re-encode), an application-defined RowGroup around them (row path), row groups of a source file written with the same settings (verbatim copy), with the other data page version (column-wise re-encode), behind an application-defined RowGroup, larger than MaxRowsPerRowGroup (cut on the way), and one MultiRowGroup over them (segments); the source file and the file written are checked like every other file, the sorting columns recorded for every row group must be the declaration (none or the declaration where row groups are cut or packed on the way) and must be true of the rows read back (null placement included). (b'+) the same ways in with a conversion on the way: every source row group behind parquet.ConvertRowGroup to a schema made of some of the columns (1-3 sorting columns over up to 4 columns whose values repeat; the target lacks the first, the second, the third sorting column, the first two, a column that is no sorting column, or nothing; random subsets in the random cases): the converted row group may declare only the sorting columns that precede the first one its schema lacks, what it declares must be true of the rows it yields, and the file written from it is checked like the others against the rows of the kept columns. (b'') for every file of at least 2 row groups the column index of every column chunk of parquet.MultiRowGroup over the row groups in file order, reversed, and in a generated order (consecutive or random row groups, repetitions, an inner MultiRowGroup): page count, null counts, null pages and bounds against the values read back from the pages, IsAscending / IsDescending true of all pairs of non-null pages, Search of every value, and IsAscending / IsDescending against the model of isOrdered fed with what the chunks' own indexes say; a sweep gives every kind (required / optional / repeated, plain / dictionary) files whose row groups are ascending, descending, constant, random or null-only runs whose ranges are disjoint, touch, overlap partially or are nested. Every page header, chunk statistic, column index entry, histogram and boundary order of every row group is checked directly against the values read back and against the model. A case is one indexer call sequence, one page, or one column chunk; non-trivial = at least 2 pages / values; distinct by the canonical text of the case."
+	c.Res.Rule = "(a) ColumnIndexer of every physical/logical type fed generated page lists (ordered, reversed, constant and random bounds from a per-type domain with extremes, -0, +-Inf, NaN payloads, long 0xFF prefixes; null pages at every position; size limits -1..21), on new indexers and on indexers that indexed 1-2 earlier lists and were Reset (random histories plus a sweep of every kind over histories shorter, equal and longer than the list; the column indexes handed out along the history are kept, as the writer keeps those of finished row groups until Close, and must still read as they did once the indexer has gone on), ascending and descending lists of every kind whose length is around the multiples of the strides of the vectorised order kernels (56, 112, 240 pages for every kind; 55..57, 111..113, 239..241 for the six kinds that have their own kernel, 447..449 / 479..481 for one kernel of each stride; all of these for every kind in the thorough tier; new and reset indexers), plus every list of <= 4 pages over a 3-value domain for int32 / byte arrays and every byte string over {00,01,fe,ff} up to length 5 with limits 1..4; Type.Compare on all domain pairs; Bounds of in-memory pages, plain and dictionary indexed: random pages, byte-position sweeps, position sweeps (every kind, pages of 65, 129 and 200 values — twelve lengths up to 257 in the thorough tier — holding the only smallest and the only largest value of the page at every position in turn: the first and last value of every batch of 64 the generic page code reads, every lane and tail position of the kernels), pages above 1 MiB, and every ordered pair of every domain (NaNs and both zeros included; for the kinds whose order has ties also the pair spread over a longer page), each followed by Search of every value of the page in the one-page index made of the page's own bounds. (b) files with generated schemas (1-4 columns, required / optional / repeated, plain / dictionary, data page v1 / v2, tiny page buffers, every ColumnIndexSizeLimit 1..20, with and without page statistics, sorting declared or not; row groups cut by MaxRowsPerRowGroup and by Flush; writers new or reused through Writer.Reset after a complete or an abandoned file; a sweep gives every kind, plain and dictionary, each of these histories), re-written through WriteRowGroup with identical settings; one file in three is written with DeprecatedDataPageStatistics(true), and a sweep gives every kind (plain / dictionary, required / optional, new and reset writers, one or several row groups) such files whose pages walk up, down or at random through the domain, so that later pages move the chunk bounds again and again (for byte arrays to shorter, longer and equally long values): the deprecated min / max of every page header and of every chunk, when present, are held to the same bounds predicate in the column order and, with the option set, must be present and values of the chunk wherever min_value / max_value are, and are compared with the model of recordPageStats (c05.chunkdep). (b') the rows sorted in 1-4 parquet.Buffers that declare 0-3 sorting columns (every combination of descending / nulls first) and written through Writer.WriteRowGroup by a writer without (or, sometimes, with) a sorting configuration of its own, on every way in: the Buffers (column-wise re-encode), an application-defined RowGroup around them (row path), row groups of a source file written with the same settings (verbatim copy), with the other data page version (column-wise re-encode), behind an application-defined RowGroup, larger than MaxRowsPerRowGroup (cut on the way), and one MultiRowGroup over them (segments); the source file and the file written are checked like every other file, the sorting columns recorded for every row group must be the declaration (none or the declaration where row groups are cut or packed on the way) and must be true of the rows read back (null placement included). (b'+) the same ways in with a conversion on the way: every source row group behind parquet.ConvertRowGroup to a schema made of some of the columns (1-3 sorting columns over up to 4 columns whose values repeat; the target lacks the first, the second, the third sorting column, the first two, a column that is no sorting column, or nothing; random subsets in the random cases): the converted row group may declare only the sorting columns that precede the first one its schema lacks, what it declares must be true of the rows it yields, and the file written from it is checked like the others against the rows of the kept columns. (b'') for every file of at least 2 row groups the column index of every column chunk of parquet.MultiRowGroup over the row groups in file order, reversed, and in a generated order (consecutive or random row groups, repetitions, an inner MultiRowGroup): page count, null counts, null pages and bounds against the values read back from the pages, IsAscending / IsDescending true of all pairs of non-null pages, Search of every value, and IsAscending / IsDescending against the model of isOrdered fed with what the chunks' own indexes say; a sweep gives every kind (required / optional / repeated, plain / dictionary) files whose row groups are ascending, descending, constant, random or null-only runs whose ranges are disjoint, touch, overlap partially or are nested. Every page header, chunk statistic, column index entry, histogram and boundary order of every row group is checked directly against the values read back and against the model. A case is one indexer call sequence, one page, or one column chunk; non-trivial = at least 2 pages / values; distinct by the canonical text of the case."
 
 	var vmIdx, vmTrunc []string
 	addVmIdx := func(cs *idxCase) {
@@ -2554,6 +2730,7 @@ func runC05(c *core.Ctx) {
 	nFiles := c.N(450, 3000)
 	copiedChunks := parquet.VerifCopyPathCount()
 	historySweep(c)
+	deprecatedSweep(c)
 	multiSweep(c)
 	transferSweep(c)
 	convertSweep(c)
